@@ -26,6 +26,8 @@ type group struct {
 	After   *V
 	Rem     []V
 	Add     []V // in emission order
+	// displacement of the context tests from their consistent positions (hand-edited patches)
+	BeforeShift, AfterShift int
 }
 
 func ptr(prefix []string, last string, root bool) string {
@@ -43,10 +45,10 @@ func (g group) ops() []ref.Op {
 	var out []ref.Op
 	p := ptr(g.Prefix, g.Last, g.Root)
 	if g.Before != nil {
-		out = append(out, ref.Op{Op: "test", Path: ptr(g.Prefix, strconv.Itoa(g.E-1), false), Value: *g.Before, HasValue: true})
+		out = append(out, ref.Op{Op: "test", Path: ptr(g.Prefix, strconv.Itoa(g.E-1+g.BeforeShift), false), Value: *g.Before, HasValue: true})
 	}
 	if g.After != nil {
-		out = append(out, ref.Op{Op: "test", Path: ptr(g.Prefix, strconv.Itoa(g.E+len(g.Rem)), false), Value: *g.After, HasValue: true})
+		out = append(out, ref.Op{Op: "test", Path: ptr(g.Prefix, strconv.Itoa(g.E+len(g.Rem)+g.AfterShift), false), Value: *g.After, HasValue: true})
 	}
 	for _, r := range g.Rem {
 		out = append(out, ref.Op{Op: "test", Path: p, Value: r, HasValue: true}, ref.Op{Op: "remove", Path: p, Value: r, HasValue: true})
@@ -163,6 +165,19 @@ func variations(gs []group) [][]group {
 				v[gi].E = g.E + d
 				v[gi].Last = strconv.Itoa(g.E + d)
 				out = append(out, v)
+			}
+			// move a context test off its position
+			for _, d := range []int{-1, 1} {
+				if g.Before != nil && g.E-1+d >= 0 {
+					v := cloneGroups(gs)
+					v[gi].BeforeShift = d
+					out = append(out, v)
+				}
+				if g.After != nil && g.E+len(g.Rem)+d >= 0 {
+					v := cloneGroups(gs)
+					v[gi].AfterShift = d
+					out = append(out, v)
+				}
 			}
 			// drop a context test
 			if g.Before != nil {
@@ -307,6 +322,7 @@ func c10Spaces(tier string) []pairLeg {
 	}
 	// own-output only (no deviations): documents beyond the small scope
 	add("own:large", Large().Filter(func(v V) bool { return len(ref.JSON(v)) < 5000 }))
+	add("own:hostile2", HostileDocs2())
 	add("own:numbers", NumDocs())
 	add("own:strings", StrDocs())
 	return legs
@@ -411,6 +427,10 @@ func enumC10(tier string, e *engine.Emitter) {
 				if strings.HasPrefix(l.Name, "own:") {
 					e.Do(engine.Case{Kind: "c10own", Leg: l.Name + "/own-output", A: at, B: bt, C: at, X: p0})
 					continue
+				}
+				// text that is a patch followed or preceded by something else is not an RFC 6902 document
+				for _, g := range []string{p0 + "]", p0 + ",", p0 + "\n" + p0, p0 + "{}", p0 + " x", "[]" + p0, p0[:len(p0)-1]} {
+					e.Do(engine.Case{Kind: "c10", Leg: l.Name + "/text-garbage", A: at, B: bt, C: at, X: g})
 				}
 				targets := []string{at, bt}
 				for _, ed := range gen.Edits(l.A.Vals[i], []V{1.0, 2.0}, []string{"k"}) {
